@@ -63,6 +63,11 @@ def run(P, rep, tier):
 
     # merge re-labels an already committed target with a (possibly shorter) user block: the codec must terminate / cut at NUL
     rep.attempt(r5_codec, P, rep, ctx, "C05.R5")
+    # the merge target must not become part of the SOURCE's file set: which files belong to a record is decided by the name
+    # language (C03.R3)
+    from . import c03 as _c03
+
+    rep.attempt(_c03.r3_name_language, P, rep, ctx)
     rep.floor("C05.R1", 3)
     rep.floor("C05.R2", 3)
     rep.floor("C05.R3", 6)
